@@ -880,6 +880,16 @@ fn cmd_bits(toks: &[&str]) -> String {
       let ops: Vec<String> = toks[1..].iter().map(|s| s.to_string()).collect();
       q_compress::verif::writer_script(&ops).join(" ; ")
     }
+    // floatfns kinfo <bits> <lower> <upper> <gcd> | gcdbits <bits> <range> | countbits <n> <0|1>
+    //        | jumpstart <count> <n> | maxn <level> <n> | runlen <count> <n>     (kinfo/gcdbits arguments in hex)
+    "floatfns" => {
+      let op = toks[1];
+      let (bits, args): (usize, Vec<u128>) = match op {
+        "kinfo" | "gcdbits" => (toks[2].parse().unwrap(), toks[3..].iter().map(|x| u128::from_str_radix(x, 16).unwrap()).collect()),
+        _ => (0, toks[2..].iter().map(|x| x.parse::<u128>().unwrap()).collect()),
+      };
+      q_compress::verif::float_fns_script(op, bits, &args)
+    }
     // bodywrite <bits> <unsigneds hex,..|-> <count:lower:upper:code:jump:gcd> ...
     "bodywrite" => {
       let bits: usize = toks[1].parse().unwrap();
@@ -984,7 +994,7 @@ fn answer(line: &str) -> String {
       "bigrt" => dispatch!(toks[1], cmd_bigrt, &toks[2..]),
       "ts" => cmd_ts(&toks[1..]),
       "consts" => cmd_consts(),
-      "bwords" | "bread" | "bwrite" | "bodywrite" | "numdec" => cmd_bits(&toks),
+      "bwords" | "bread" | "bwrite" | "bodywrite" | "numdec" | "floatfns" => cmd_bits(&toks),
       _ => "bad-op".to_string(),
     }
   }));
